@@ -94,6 +94,9 @@ async def _scenario(loop, script_name, family, k, *, neighbour=None, delays=None
         info["step_at_cut"] = victim.step
         if family == "server_close":
             info["close_task"] = asyncio.ensure_future(server.close())
+        elif family == "write_then_rst":
+            for t in victim_transports():
+                t.abort()
         else:
             for t in victim_transports():
                 t.close()
@@ -103,7 +106,7 @@ async def _scenario(loop, script_name, family, k, *, neighbour=None, delays=None
             if n == k:
                 do_cut()
         loop.net.event_hooks.append(hook)
-    if family == "write_then_fin" and k is not None:
+    if family in ("write_then_fin", "write_then_rst") and k is not None:
         orig_send = victim.raw.send
 
         def send(line):
@@ -209,6 +212,8 @@ def _case_list(tier):
                 cases.append((s, "server_close", k, mode))
             for j in range(1, n_writes + 1):
                 cases.append((s, "write_then_fin", j, mode))
+                if mode in ("zero", "lat1ms"):
+                    cases.append((s, "write_then_rst", j, mode))
     return cases
 
 
@@ -314,14 +319,14 @@ def part_align(ctx):
 TAPE = st.lists(st.integers(0, 255), max_size=60)
 DELAYS = st.dictionaries(st.sampled_from(["read", "write", "list.next", "_open", "stat", "exists"]),
                          st.sampled_from([0.001, 0.05, 0.7]), max_size=2)
-SAMPLED = st.tuples(st.sampled_from(SCRIPTS_ALL), st.sampled_from(["peer_vanishes", "server_close", "write_then_fin"]),
+SAMPLED = st.tuples(st.sampled_from(SCRIPTS_ALL), st.sampled_from(["peer_vanishes", "server_close", "write_then_fin", "write_then_rst"]),
                     st.integers(1, 400), TAPE, DELAYS, st.sampled_from([None, None, "tour", "pasv_after"]),
                     st.sampled_from(["mem", "mem", "fs", "afs"]), st.booleans())
 
 
 def check_sampled(ctx, case):
     s, family, k, tape, delays, neighbour, backend, ports = case
-    if family == "write_then_fin":
+    if family in ("write_then_fin", "write_then_rst"):
         k = 1 + (k % 24)
     data_ports = [40100, 40101, 40102] if ports else None
     leaks, info, victim = run_case(s, family, k, tape, neighbour=neighbour, delays=delays, backend=backend,
